@@ -2199,3 +2199,145 @@ func (c *Ctx) ps1CallersDominated(cs callSite, checkAll map[*types.Func]bool, de
 	}
 	return true
 }
+
+// ---------------------------------------------------------------- MU1
+
+// RuleMU1: a macro that is never pasted contributes nothing. The macro table is read (a) by
+// the function that expands a PASTE - it is in the expansion's recursion, guarded by the
+// on-stack set - and otherwise only (b) by functions that have no effect on the catalog or on
+// the core's tables (the recursion check). A function outside the expansion that reads
+// macro bodies and registers what it finds there (rules of ENUMs, types ...) makes an
+// unpasted macro visible in the result.
+func RuleMU1(c *Ctx) {
+	sc := c.Run.Begin("MU1", "the macro table is read only by the PASTE expansion and by functions without effects on the catalog or the core's tables", 1)
+	defer sc.End()
+	pk := c.P.Pkg("core")
+	macro := c.Field("core", "JApiCore", "macro")
+	coreT := c.Named("core", "JApiCore")
+	catT := c.Named("catalog", "Catalog")
+	if pk == nil || macro == nil || coreT == nil || catT == nil {
+		sc.Undecided("anchors", "-", "unresolved anchor: core.JApiCore.macro / catalog.Catalog")
+		return
+	}
+	info := pk.TypesInfo
+	// effectful: stores into a map/slice field of JApiCore, or calls an Add* method of the catalog
+	effectful := func(fd *ast.FuncDecl) string {
+		why := ""
+		ast.Inspect(fd.Body, func(n ast.Node) bool {
+			switch x := n.(type) {
+			case *ast.AssignStmt:
+				for _, l := range x.Lhs {
+					if ix, ok := ast.Unparen(l).(*ast.IndexExpr); ok {
+						if sel, ok := ast.Unparen(ix.X).(*ast.SelectorExpr); ok {
+							if f, ok := info.ObjectOf(sel.Sel).(*types.Var); ok && f.IsField() && fieldOwner(coreT, f) {
+								why = "stores into core." + f.Name()
+							}
+						}
+					}
+				}
+			case *ast.CallExpr:
+				if g := Callee(info, x); g != nil && recvNamedOf(g) == catT && strings.HasPrefix(g.Name(), "Add") {
+					why = "calls catalog." + g.Name()
+				}
+			}
+			return true
+		})
+		return why
+	}
+	n := 0
+	c.P.Funcs(func(p *pkgT, fd *ast.FuncDecl) {
+		if p != pk {
+			return
+		}
+		reads := false
+		var at ast.Node
+		ast.Inspect(fd.Body, func(x ast.Node) bool {
+			if as, ok := x.(*ast.AssignStmt); ok {
+				// an insert M[k] = v is not a read
+				for _, l := range as.Lhs {
+					if ix, ok := ast.Unparen(l).(*ast.IndexExpr); ok && fieldSel(info, ix.X, macro) {
+						for _, r := range as.Rhs {
+							ast.Inspect(r, func(y ast.Node) bool {
+								if ix2, ok := y.(*ast.IndexExpr); ok && fieldSel(info, ix2.X, macro) {
+									reads, at = true, ix2
+								}
+								return true
+							})
+						}
+						return false
+					}
+				}
+			}
+			if ix, ok := x.(*ast.IndexExpr); ok && fieldSel(info, ix.X, macro) {
+				reads, at = true, ix
+			}
+			return true
+		})
+		if !reads {
+			return
+		}
+		self, _ := info.Defs[fd.Name].(*types.Func)
+		n++
+		key := c.P.DeclName(fd)
+		// (a) the expansion: the function itself is recursive through what it calls
+		inExpansion := false
+		for _, g := range reachStatic(c.P, pk, []*types.Func{self}) {
+			if g == self {
+				continue
+			}
+			if gd := c.P.Decl(g); gd != nil {
+				for _, h := range staticCallees(c.P, info, gd.Body) {
+					if h == self {
+						inExpansion = true
+					}
+				}
+			}
+		}
+		if inExpansion {
+			sc.Holds(key, c.P.Pos(at.Pos()), "part of the PASTE expansion's recursion")
+			return
+		}
+		// (b) no effects
+		why := ""
+		for _, g := range reachStatic(c.P, pk, []*types.Func{self}) {
+			if gd := c.P.Decl(g); gd != nil {
+				if w := effectful(gd); w != "" && g != self {
+					why = g.Name() + " " + w
+				} else if w != "" {
+					// the function's own stores: allowed only when they are the insert into the macro table itself
+					own := ""
+					ast.Inspect(gd.Body, func(x ast.Node) bool {
+						if as, ok := x.(*ast.AssignStmt); ok {
+							for _, l := range as.Lhs {
+								if ix, ok := ast.Unparen(l).(*ast.IndexExpr); ok {
+									if sel, ok := ast.Unparen(ix.X).(*ast.SelectorExpr); ok {
+										if f, ok := info.ObjectOf(sel.Sel).(*types.Var); ok && f.IsField() && fieldOwner(coreT, f) && f != macro {
+											own = "stores into core." + f.Name()
+										}
+									}
+								}
+							}
+						}
+						if call, ok := x.(*ast.CallExpr); ok {
+							if h := Callee(info, call); h != nil && recvNamedOf(h) == catT && strings.HasPrefix(h.Name(), "Add") {
+								own = "calls catalog." + h.Name()
+							}
+						}
+						return true
+					})
+					if own != "" {
+						why = g.Name() + " " + own
+					}
+				}
+			}
+		}
+		if why == "" {
+			sc.Holds(key, c.P.Pos(at.Pos()), "reads the macro table without any effect on the catalog or the core's tables")
+		} else {
+			sc.Violation(key, c.P.Pos(at.Pos()), "reads macro bodies outside the PASTE expansion and has effects ("+why+"): what stands in a macro that nobody pastes reaches the catalog (an ENUM of an unpasted macro becomes a defined rule)")
+		}
+	})
+	if n == 0 {
+		sc.Undecided("reads", "-", "no read of the macro table found")
+	}
+}
